@@ -384,6 +384,18 @@ where
     Box::new(fold(xs, init, f, |_| (), |_, _| None, Some))
 }
 
+/// Does `l` yield a true value before it yields an exception (`first(l // false)`)?
+///
+/// This decides which side of `l // r` is taken for paths and updates.
+/// An exception (error or `break`) raised before that is returned, not ignored.
+fn alt_probe<'a, V: ValT>(mut l: ValXs<'a, V>) -> ValX<'a, bool, V> {
+    l.find_map(|y| match y {
+        Ok(y) => y.as_bool().then_some(Ok(true)),
+        Err(e) => Some(Err(e)),
+    })
+    .unwrap_or(Ok(false))
+}
+
 fn lazy<I: Iterator, F: FnOnce() -> I>(f: F) -> impl Iterator<Item = I::Item> {
     core::iter::once_with(f).flatten()
 }
@@ -604,12 +616,10 @@ impl Id {
                 })
             }
             Ast::Comma(l, r) => Box::new(l.paths(cv.clone()).chain(lazy(|| r.paths(cv)))),
-            Ast::Alt(l, r) => {
-                let any_true = l
-                    .run(proj_cv(&cv))
-                    .any(|v| v.as_ref().map_or(true, ValT::as_bool));
-                if any_true { l } else { r }.paths(cv)
-            }
+            Ast::Alt(l, r) => match alt_probe(l.run(proj_cv(&cv))) {
+                Ok(any_true) => if any_true { l } else { r }.paths(cv),
+                Err(e) => box_once(Err(e)),
+            },
             Ast::Ite(if_, then_, else_) => {
                 flat_map_then_with(if_.run(proj_cv(&cv)), cv, move |v, cv| {
                     if v.as_bool() { then_ } else { else_ }.paths(cv)
@@ -706,10 +716,10 @@ impl Id {
             Ast::Ite(if_, then_, else_) => reduce(if_.run(cv.clone()), cv.1, move |x, v| {
                 if x.as_bool() { then_ } else { else_ }.update((cv.0.clone(), v), f.clone())
             }),
-            Ast::Alt(l, r) => {
-                let some_true = l.run(cv.clone()).any(|y| y.map_or(true, |y| y.as_bool()));
-                if some_true { l } else { r }.update(cv, f)
-            }
+            Ast::Alt(l, r) => match alt_probe(l.run(cv.clone())) {
+                Ok(some_true) => if some_true { l } else { r }.update(cv, f),
+                Err(e) => box_once(Err(e)),
+            },
             Ast::Fold(xs, pat, init, update, fold_type) => {
                 let xs = rc_lazy_list::List::from_iter(run_and_bind(xs, cv.clone(), pat));
                 let rec = move |v| fold_update(fold_type, update, v, xs.clone(), f.clone());
